@@ -393,6 +393,14 @@ def oracle_c06_fresh(tr):
                     return {"key": "interest-not-applied-first", "what": f"{H.OPN[op[0]]} left bank {k} with liability share value {b1[k]['lsv']}, accrual to the current time gives {rl}"}
                 if op[0] != 18 and b1[k]["asv"] != ra:
                     return {"key": "interest-not-applied-first", "what": f"{H.OPN[op[0]]} left bank {k} with asset share value {b1[k]['asv']}, accrual to the current time gives {ra}"}
+        if op[0] == 18:
+            # the settlement covers the debt INCLUDING the interest up to now: nothing worth a raw unit stays on the position
+            # (a settlement priced before the accrual leaves exactly the period's interest behind)
+            k = op[2]
+            for sl in a1[op[1]]["slots"]:
+                if sl["bank"] - 1 == k and sl["l"] * b1[k]["lsv"] >= ONE + b1[k]["lsv"]:
+                    return {"key": "bankruptcy-settled-stale-debt",
+                            "what": f"after bankruptcy {sl['l']} liability shares (share value {b1[k]['lsv']}) remain on the settled position: the debt was priced before the interest of the period was applied"}
     return None
 
 
